@@ -60,7 +60,7 @@ def _utf8_range(args):
     return bad
 
 
-@register("C05", "C01", "C02", "C06")
+@register("C05", "C01", "C02", "C06", "C18", "C19")
 def run(tier, seed):
     from . import spec_quote
     out = []
@@ -114,4 +114,87 @@ def run(tier, seed):
                     "changed, all 1 114 112 code points", not bad, "_write_utf8", detail, N,
                     replay={"inputs": {"code_point": bad[0][0], "text": chr(bad[0][0])}, "observed": detail,
                             "agrees": False} if bad else None, t=time.time() - t))
+    out.append(_writer_frame(m))
+    out.append(_error_convention())
     return out
+
+
+def _error_convention():
+    """static obligation on the .pyx text (the rewriter drops `noexcept`, so it is checked here):
+    a cdef function that can set an exception -- it calls PyErr_*, has a `raise`, or calls such a
+    function -- is not declared `noexcept` (Cython would print and swallow the exception and the
+    caller would continue with a failed write)"""
+    import os
+    import re
+    t = time.time()
+    path = os.path.join(os.environ.get("PYVC_REPO", "/repo"), "yarl", "_quoting_c.pyx")
+    src = open(path).read()
+    funcs = {}
+    cur = None
+    for line in src.split("\n"):
+        mm = re.match(r"\s*(cdef|def)\s+(?:inline\s+)?(?:[\w\s\*]+?\s+)?\*?(\w+)\s*\(", line)
+        if mm and not line.strip().startswith(("cdef struct", "cdef class")):
+            cur = mm.group(2)
+            funcs[cur] = {"head": line, "body": []}
+            continue
+        if cur is not None:
+            funcs[cur]["body"].append(line)
+    # multi-line heads: join until ':' ends the signature
+    for name, f in funcs.items():
+        head = f["head"]
+        i = 0
+        while not head.rstrip().endswith(":") and i < len(f["body"]):
+            head += " " + f["body"][i].strip()
+            i += 1
+        f["head"] = head
+    can_raise = {n for n, f in funcs.items() if any(re.search(r"PyErr_\w+\(|\braise\b", b) for b in f["body"])}
+    changed = True
+    while changed:
+        changed = False
+        for n, f in funcs.items():
+            if n in can_raise:
+                continue
+            if any(re.search(r"\b" + re.escape(c) + r"\(", b) for b in f["body"] for c in can_raise):
+                can_raise.add(n)
+                changed = True
+    bad = sorted(n for n in can_raise if "noexcept" in funcs[n]["head"])
+    r = _rec("no function that can set an exception is declared noexcept (error-return convention of the writer helpers)",
+             not bad, "_write_char", ", ".join(bad), len(funcs), t=time.time() - t)
+    r["kind"] = "static"
+    r["backend"] = "static"
+    if bad:
+        r["replay"] = {"inputs": {"functions": bad}, "observed": "declared noexcept but can set an exception", "agrees": False}
+    return r
+
+
+def _writer_frame(m):
+    """static obligation: the fields of a Writer are assigned only by _init_writer and
+    _write_char (so the Writer invariant proved for _write_char holds after _do_quote, which is
+    what _do_quote_or_skip relies on when it releases the buffer)"""
+    import ast
+    t = time.time()
+    tree = ast.parse(m.__pyx_text__)
+    bad = []
+    allowed = {"_init_writer", "_write_char"}
+
+    def visit(fn):
+        for node in ast.walk(fn):
+            targets = []
+            if isinstance(node, ast.Assign):
+                targets = node.targets
+            elif isinstance(node, (ast.AugAssign, ast.AnnAssign)):
+                targets = [node.target]
+            for tg in targets:
+                for sub in ast.walk(tg):
+                    if isinstance(sub, ast.Attribute) and isinstance(sub.value, ast.Name) and sub.value.id == "writer" \
+                            and sub.attr in ("buf", "size", "pos", "changed"):
+                        if fn.name not in allowed and not (fn.name == "_write_utf8" and sub.attr == "changed"):
+                            bad.append(f"{fn.name}: writer.{sub.attr} (line {node.lineno})")
+    for node in ast.walk(tree):
+        if isinstance(node, ast.FunctionDef):
+            visit(node)
+    r = _rec("Writer fields are assigned only in _init_writer / _write_char (and the changed flag in _write_utf8)",
+             not bad, "Writer", "; ".join(bad[:3]), 1, t=time.time() - t)
+    r["kind"] = "static"
+    r["backend"] = "static"
+    return r
